@@ -25,6 +25,7 @@ import os
 import pickle
 import random
 import re
+import shlex
 import shutil
 import subprocess
 import sys
@@ -225,9 +226,44 @@ def install_block(rng: random.Random, root: str, files: T.Dict[str, str]) -> T.L
     return lines
 
 
+def mixed_block(rng: random.Random, files: T.Dict[str, str]) -> T.List[str]:
+    """targets mixing C, C++ and assembler sources, with and without per-language arguments"""
+    files['c15x_m.c'] = 'int main(void) { return 0; }\n'
+    files['c15x_l.c'] = 'int c15x_lc(void) { return 0; }\n'
+    files['c15x_p.cpp'] = 'int c15x_p() { return 0; }\n'
+    files['c15x_q.cpp'] = 'int c15x_q() { return 1; }\n'
+    files['c15x_s.S'] = '.text\n'
+    lines = ["add_languages('cpp', native: false)"]
+    for k in range(rng.randint(1, 3)):
+        fn = rng.choice(['executable', 'static_library', 'shared_library', 'both_libraries'])
+        srcs = (["'c15x_m.c'"] if fn == 'executable' else ["'c15x_l.c'"]) + ["'c15x_p.cpp'"]
+        if rng.random() < 0.4:
+            srcs.append("'c15x_q.cpp'")
+        if rng.random() < 0.3:
+            srcs.append("'c15x_s.S'")
+        kws = []
+        r = rng.random()
+        if r < 0.3:
+            kws += ["c_args: ['-DC15_C']", "cpp_args: ['-DC15_CPP']"]
+        elif r < 0.5:
+            kws += ["c_args: ['-DC15_SAME']", "cpp_args: ['-DC15_SAME']"]
+        elif r < 0.6:
+            kws += ["cpp_args: ['-DC15_ONLY=\"x y\"']"]
+        lines.append(f"{fn}('c15x-mix{k}', {', '.join(srcs + kws)})")
+    return lines
+
+
+MIXED_ARGS = [['-Db_ndebug=true'], ['-Dbuildtype=release', '-Db_ndebug=if-release'], ['-Dcpp_std=c++14', '-Db_ndebug=true'], [],
+              ['-Dwarning_level=3', '-Db_ndebug=true'], ['-Dc_std=gnu99']]
+
+
 def augment_generated(rng: random.Random, spec: dict) -> T.Tuple[T.Dict[str, str], T.List[str]]:
-    """options files and install rules for a projgen project (+ option arguments that fit them)"""
+    """options files, install rules and mixed-language targets for a projgen project (+ option arguments that fit them)"""
     files = dict(spec['files'])
+    mixed_args: T.List[str] = []
+    if rng.random() < 0.5:
+        files['meson.build'] = files['meson.build'].rstrip('\n') + '\n' + '\n'.join(mixed_block(rng, files)) + '\n'
+        mixed_args = rng.choice(MIXED_ARGS)
     roots = [''] + ([f"subprojects/{spec['subproject']}/"] if spec.get('subproject') else [])
     for root in roots:
         if rng.random() < 0.8 and "find_program('gen.py')" in files.get(root + 'meson.build', ''):
@@ -265,7 +301,7 @@ def augment_generated(rng: random.Random, spec: dict) -> T.Tuple[T.Dict[str, str
             args.append(f'-D{sub}:werror=true')
         elif r < 0.4:
             args.append(f'-D{sub}:warning_level=3')
-    return inject_messages(files), args
+    return inject_messages(files), args + mixed_args
 
 
 # ------------------------------------------------------------------------------------------------ running meson
@@ -464,7 +500,10 @@ def lean_requests(raw: dict) -> dict:
             if 'sources' in b:
                 srcs += b['sources'] + b.get('generated_sources', [])
         priv = (files[0] + '.p/') if files else ''
-        targets.append(';'.join([S(t['id']), TKIND.get(t['type'], 'o'), L(files), S(priv), L(srcs)]))
+        groups = '&'.join(':'.join([S(b['language']), L(b['compiler']), L(canon_param(bld, w) for w in b['parameters']),
+                                    L(b['sources'] + b.get('generated_sources', []))])
+                          for b in t['target_sources'] if 'language' in b and 'sources' in b)
+        targets.append(';'.join([S(t['id']), TKIND.get(t['type'], 'o'), L(files), S(priv), L(srcs), groups]))
     req = {'targets': '/'.join(targets)}
 
     def intro_tests(lst):
@@ -513,8 +552,10 @@ def lean_requests(raw: dict) -> dict:
     return req
 
 
-def edges_field(bld: str, edges: T.List[dict]) -> str:
-    return '/'.join(';'.join([S(e['rule']), L(absn(bld, o) for o in e['outs']), L(absn(bld, i) for i in e['ins'])]) for e in edges)
+def edges_field(bld: str, edges: T.List[dict], rule_commands: T.Dict[str, str]) -> str:
+    return '/'.join(';'.join([S(e['rule']), L(absn(bld, o) for o in e['outs']), L(absn(bld, i) for i in e['ins']),
+                              L(compiler_words(rule_commands.get(e['rule']))),
+                              L(canon_param(bld, w) for w in args_words(e['binds'].get('ARGS')))]) for e in edges)
 
 
 def lean_parse_manifests(texts: T.List[str]) -> T.Optional[T.List[T.Optional[T.List[dict]]]]:
@@ -532,7 +573,11 @@ def lean_parse_manifests(texts: T.List[str]) -> T.Optional[T.List[T.Optional[T.L
             for part in a.split('|'):
                 if part.startswith('E:'):
                     f = part[2:].split(';')
-                    edges.append({'rule': common.dec(f[0]), 'outs': common.dec_list(f[1]), 'ins': common.dec_list(f[3])})
+                    binds = {}
+                    for kv in (f[7].split('&') if len(f) > 7 and f[7] else []):
+                        k, _, v = kv.partition('=')
+                        binds[common.dec(k)] = common.dec(v)
+                    edges.append({'rule': common.dec(f[0]), 'outs': common.dec_list(f[1]), 'ins': common.dec_list(f[3]), 'binds': binds})
             out.append(edges)
         return out
     except Exception:   # the Ninja area belongs to C04 and may be mid-change: fall back to the Python reader
@@ -545,13 +590,70 @@ class NinjaSyntax(Exception):
     pass
 
 
+def ninja_unescape(v: str) -> str:
+    """value of a binding that holds no variable reference: `$$`, `$ `, `$:`"""
+    out = []
+    i = 0
+    while i < len(v):
+        if v[i] == '$' and i + 1 < len(v) and v[i + 1] in '$ :':
+            out.append(v[i + 1])
+            i += 2
+        else:
+            out.append(v[i])
+            i += 1
+    return ''.join(out)
+
+
+def read_rule_commands(text: str) -> T.Dict[str, str]:
+    """rule name -> raw `command` binding"""
+    rules: T.Dict[str, str] = {}
+    cur = None
+    for line in text.split('\n'):
+        if line.startswith('rule '):
+            cur = line[5:].strip()
+        elif cur is not None and line.startswith(' '):
+            m = re.match(r' +command = ?(.*)$', line)
+            if m:
+                rules[cur] = m.group(1)
+        else:
+            cur = None
+    return rules
+
+
+def compiler_words(command: T.Optional[str]) -> T.List[str]:
+    """the words of a rule command in front of `$ARGS` (what is executed)"""
+    if not command or '$ARGS' not in command:
+        return []
+    try:
+        return shlex.split(ninja_unescape(command.split('$ARGS')[0]))
+    except ValueError:
+        return []
+
+
+def args_words(value: T.Optional[str]) -> T.List[str]:
+    """the words of an (evaluated) ARGS binding as the shell will see them"""
+    if not value:
+        return []
+    try:
+        return shlex.split(value)
+    except ValueError:
+        return ['<unparsable>', value]
+
+
 def read_build_statements(text: str) -> T.List[dict]:
-    """own reader of the `build` statements of a manifest: explicit outputs, rule, explicit inputs"""
+    """own reader of the `build` statements of a manifest: explicit outputs, rule, explicit inputs, bindings"""
     stmts = []
-    # join continuation lines
-    text = re.sub(r'\$\n[ ]*', '', text)
+    # join continuation lines (an odd number of `$` in front of the newline)
+    text = re.sub(r'(?<!\$)((?:\$\$)*)\$\n[ ]*', r'\1', text)
+    cur_binds: T.Optional[dict] = None
     for line in text.split('\n'):
         if not line.startswith('build '):
+            if cur_binds is not None and line.startswith(' '):
+                m = re.match(r' +([A-Za-z0-9_.-]+) = ?(.*)$', line)
+                if m:
+                    cur_binds[m.group(1)] = ninja_unescape(m.group(2))
+            else:
+                cur_binds = None
             continue
         toks: T.List[str] = []
         cur: T.List[str] = []
@@ -608,8 +710,20 @@ def read_build_statements(text: str) -> T.List[dict]:
             if t.startswith('\0'):
                 break
             ins.append(t)
-        stmts.append({'rule': rule, 'outs': outs, 'ins': ins})
+        cur_binds = {}
+        stmts.append({'rule': rule, 'outs': outs, 'ins': ins, 'binds': cur_binds})
     return stmts
+
+
+PATH_PARAM = re.compile(r'^(-I|-L|-isystem|-iquote|-idirafter)(.+)$')
+
+
+def canon_param(bld: str, w: str) -> str:
+    """intro `parameters` hold absolute include / library directories, ARGS hold them relative to the build directory"""
+    m = PATH_PARAM.match(w)
+    if m:
+        return m.group(1) + os.path.normpath(os.path.join(bld, m.group(2)))
+    return w
 
 
 COMPILE_RULE = re.compile(r'^[A-Za-z0-9]+_COMPILER')
@@ -617,7 +731,9 @@ COMPILE_RULE = re.compile(r'^[A-Za-z0-9]+_COMPILER')
 
 def oracle_targets(raw: dict) -> dict:
     bld = raw['bld']
-    stmts = [{'rule': s['rule'], 'outs': [absn(bld, o) for o in s['outs']], 'ins': [absn(bld, i) for i in s['ins']]}
+    commands = read_rule_commands(raw['ninja'])
+    stmts = [{'rule': s['rule'], 'outs': [absn(bld, o) for o in s['outs']], 'ins': [absn(bld, i) for i in s['ins']],
+              'exe': compiler_words(commands.get(s['rule'])), 'args': [canon_param(bld, w) for w in args_words(s['binds'].get('ARGS'))]}
              for s in read_build_statements(raw['ninja'])]
     viol = []
     per = []
@@ -694,7 +810,39 @@ def oracle_targets(raw: dict) -> dict:
                 viol.append((key, f"target {t['id']!r} ({t['type']}): its statements consume {sorted(os.path.relpath(x, bld) for x in consumed - reported)} which "
                              f"target_sources omits; target_sources lists {sorted(os.path.relpath(x, bld) for x in reported - consumed)} which no statement of the target consumes",
                              {'target': t['id'], 'reported': sorted(reported), 'consumed': sorted(consumed)}))
-        per.append(('1' if ok_files else '0') + ('1' if ok_src else '0'))
+        ok_groups = True
+        if kind == 'b':
+            priv = files[0] + '.p/' if files else '\0'
+            mine = [s for s in stmts if COMPILE_RULE.match(s['rule']) and any(o.startswith(priv) for o in s['outs'])]
+            groups = [b for b in t['target_sources'] if 'language' in b and 'sources' in b]
+
+            def runs(b, s):
+                return (s['rule'].startswith(b['language'] + '_COMPILER') and s['exe'] == b['compiler'] and
+                        s['args'] == [canon_param(bld, w) for w in b['parameters']])
+            for b in groups:
+                for src in b['sources'] + b.get('generated_sources', []):
+                    users = [s for s in mine if src in s['ins']]
+                    if any(runs(b, s) for s in users):
+                        continue
+                    ok_groups = False
+                    if not users:
+                        what, key = 'no compile statement of the target consumes it', 'targets:group-source-not-compiled'
+                    elif not any(s['rule'].startswith(b['language'] + '_COMPILER') for s in users):
+                        what, key = f"it is compiled by rule {users[0]['rule']!r}", 'targets:group-language-differs'
+                    elif not any(s['exe'] == b['compiler'] for s in users):
+                        what, key = f"it is compiled with {users[0]['exe']!r}", 'targets:group-compiler-differs'
+                    else:
+                        what, key = f"its statement's ARGS are {users[0]['args']!r}", 'targets:group-parameters-differ'
+                    viol.append((key, f"target {t['id']!r}: {os.path.relpath(src, bld)!r} is listed in the group language {b['language']!r} compiler {b['compiler']!r} "
+                                 f"parameters {b['parameters']!r}, but {what}", {'target': t['id'], 'source': src, 'group': {k: v for k, v in b.items()}}))
+            for s in mine:
+                for src in s['ins']:
+                    if not any(src in b['sources'] + b.get('generated_sources', []) and runs(b, s) for b in groups):
+                        ok_groups = False
+                        viol.append(('targets:compiled-source-in-no-matching-group', f"target {t['id']!r}: {os.path.relpath(src, bld)!r} is compiled by {s['rule']!r} "
+                                     f"({s['exe']!r}, ARGS {s['args']!r}); no target_sources group with that language, compiler and parameters lists it",
+                                     {'target': t['id'], 'source': src, 'statement': s}))
+        per.append(('1' if ok_files else '0') + ('1' if ok_src else '0') + ('1' if ok_groups else '0'))
     claimed = True
     for s in stmts:
         is_target = ('_LINKER' in s['rule'] or s['rule'].startswith('CUSTOM_COMMAND')) and \
@@ -703,7 +851,7 @@ def oracle_targets(raw: dict) -> dict:
             claimed = False
             viol.append(('targets:build-output-in-no-target', f"build.ninja makes {[os.path.relpath(o, bld) for o in s['outs']]} "
                          f"({s['rule']}) but no entry of intro-targets.json lists it", {'statement': s}))
-    agree = claimed and all(p == '11' for p in per)
+    agree = claimed and all(p == '111' for p in per)
     return {'answer': f"OK|{'1' if agree else '0'}|{','.join(per)}|{'1' if claimed else '0'}", 'violations': viol, 'stmts': stmts}
 
 
@@ -1007,6 +1155,9 @@ CORPUS_VARIANTS: T.Dict[str, T.List[T.Tuple[str, T.List[str], bool]]] = {
                              '--sysconfdir=/etc/x', '--localstatedir=var2', '--sbindir=sb', '--mandir=mm'], False),
                    ('flat-static', ['--layout=flat', '-Ddefault_library=static', '--includedir=include/deeper/inc'], True)],
     'instdup': [('default', [], False)],
+    'mixed': [('default', [], False), ('ndebug', ['-Db_ndebug=true'], False), ('release', ['-Dbuildtype=release', '-Db_ndebug=if-release'], False),
+              ('std', ['-Dcpp_std=c++17', '-Dc_std=c11', '-Db_ndebug=true', '-Dwarning_level=3'], False),
+              ('unity', ['-Dunity=on', '-Db_ndebug=true'], False), ('flat-both', ['--layout=flat', '-Ddefault_library=both', '-Db_ndebug=true', '-Dwarning_level=0'], True)],
     'tests': [('default', [], False), ('flat', ['--layout=flat'], False), ('static', ['-Ddefault_library=static', '-Dbuildtype=release'], True)],
     'opts': [('default', [], False), ('yield-parent-set', ['-Dc=c'], False),
              ('many', ['-Dstr=x y', '-Dflag=false', '-Dnum=10', '-Darr=q', '-Darrc=one,three', '-Dfeat=disabled', '-Dosp:sopt=cmdline', '-Dosp2:flag=true', '-Dosp:sfeat=enabled', '-Dosp:noparent=np', '-Dwerror=true',
@@ -1086,7 +1237,7 @@ def evaluate(ctx: Ctx, results: T.List[dict], jobs_by_id: T.Dict[str, dict]) -> 
                 ctx.disagreement({'what': 'Lean manifest parser rejects a build.ninja that meson wrote', 'input': failing_input(r)})
             edges = read_build_statements(raw['ninja'])
         req = r['lean']
-        lines.append('targets ' + req['targets'] + '|' + edges_field(raw['bld'], edges))
+        lines.append('targets ' + req['targets'] + '|' + edges_field(raw['bld'], edges, read_rule_commands(raw['ninja'])))
         index.append((n, 'targets'))
         for part in PARTS[1:]:
             lines.append(req[part])
